@@ -77,3 +77,36 @@ fn c20_boundary_instants_bounded() {
         i += 1;
     }
 }
+
+// Display layout at concrete dates (a SYMBOLIC Display did not finish: core::fmt padding over 64-bit values): the year
+// sign / width boundaries (-1, 0, 1, 9998, 9999, 10000), single-digit month / day / time fields, truncated micros
+struct Cmp { want: &'static [u8], pos: usize, ok: bool }
+impl core::fmt::Write for Cmp {
+    fn write_str(&mut self, s: &str) -> core::fmt::Result {
+        let b = s.as_bytes(); let mut i = 0;
+        while i < b.len() { if self.pos >= self.want.len() || self.want[self.pos] != b[i] { self.ok = false; } self.pos += 1; i += 1; }
+        Ok(())
+    }
+}
+fn prints_as(dt: DateTime, want: &'static str) -> bool {
+    use core::fmt::Write;
+    let mut c = Cmp { want: want.as_bytes(), pos: 0, ok: true };
+    let r = write!(c, "{}", dt);
+    r.is_ok() && c.ok && c.pos == want.len()
+}
+// BOUND: 7 concrete dates (not symbolic)
+#[kani::proof]
+#[kani::unwind(34)]
+fn c20_display_layout_at_concrete_dates_bounded() {
+    let k: u8 = kani::any(); kani::assume(k < 7);
+    let ok = match k {
+        0 => prints_as(DateTime { year: 9999, month: 1, day: 1, hour: 0, minute: 0, second: 0, nanos: 0 }, "9999-01-01T00:00:00.000000Z"),
+        1 => prints_as(DateTime { year: 10000, month: 1, day: 1, hour: 0, minute: 0, second: 0, nanos: 0 }, "+10000-01-01T00:00:00.000000Z"),
+        2 => prints_as(DateTime { year: 9998, month: 12, day: 31, hour: 23, minute: 59, second: 59, nanos: 999_999_999 }, "9998-12-31T23:59:59.999999Z"),
+        3 => prints_as(DateTime { year: 1, month: 2, day: 3, hour: 4, minute: 5, second: 6, nanos: 7_000 }, "0001-02-03T04:05:06.000007Z"),
+        4 => prints_as(DateTime { year: 0, month: 2, day: 29, hour: 0, minute: 0, second: 0, nanos: 999 }, "0000-02-29T00:00:00.000000Z"),
+        5 => prints_as(DateTime { year: -1, month: 12, day: 31, hour: 0, minute: 0, second: 0, nanos: 1_000 }, "-0001-12-31T00:00:00.000001Z"),
+        _ => prints_as(DateTime { year: 2024, month: 2, day: 29, hour: 12, minute: 34, second: 56, nanos: 789_012_345 }, "2024-02-29T12:34:56.789012Z"),
+    };
+    assert!(ok, "C20.Display.rfc3339_layout_zero_padding_year_sign_and_truncated_micros_at_concrete_dates");
+}
